@@ -280,6 +280,28 @@ class Translator:
             raise TieBroken(f"{ctx['where']}: empty block")
         s = stmts[0]
         rest = stmts[1:]
+        if s["k"] == "expr" and rest:
+            e = strip_paren(s["e"])
+            # `s.push(c);` / `s.push_str(&t);` on a local String: the string with the piece appended
+            if e["k"] == "mcall" and e["method"] in ("push", "push_str") and len(e["args"]) == 1:
+                r = strip_paren(e["recv"])
+                if r["k"] == "path" and len(r["path"]["segs"]) == 1 and r["path"]["segs"][0]["id"] in env:
+                    nm = r["path"]["segs"][0]["id"]
+                    g, ty = env[nm]
+                    if g is not None and ty == STR:
+                        arg = strip_paren(e["args"][0])
+                        while arg["k"] == "ref":
+                            arg = strip_paren(arg["e"])
+                        if e["method"] == "push":
+                            if arg["k"] != "lit" or arg["lit"].get("k") != "char":
+                                raise TieBroken(f"{ctx['where']}: String::push of a non-literal")
+                            piece = Val(f"[{ord(arg['lit']['v'])}%N]", STR, True)
+                        else:
+                            piece = self.tr_expr(arg, ctx, env)
+                            if piece.ty != STR:
+                                raise TieBroken(f"{ctx['where']}: push_str of {piece.ty}")
+                        newv = self.bindall([piece], lambda c: Val(f"({g} ++ {c[0]})", STR, True))
+                        return self.finish_let(nm, newv, rest, ctx, env, writer)
         if writer and s["k"] == "expr":
             e = strip_paren(s["e"])
             deferred = e["k"] == "if" and e["else"] is not None and self.assign_target(e["then"])
@@ -597,6 +619,25 @@ class Translator:
 
     def e_match(self, e, ctx, env):
         sv = self.tr_expr(e["e"], ctx, env)
+        if sv.ty == BOOL and len(e["arms"]) == 2:
+            # match c { true => A, false => B } (or with a wildcard second arm) is if c { A } else { B }
+            def lit_bool(p):
+                if p["k"] == "lit":
+                    l = p.get("lit") or p.get("e", {}).get("lit") or {}
+                    if l.get("k") == "bool":
+                        return bool(l["v"]) if not isinstance(l["v"], str) else l["v"] == "true"
+                    return None
+                if p["k"] == "wild":
+                    return "_"
+                return None
+            pats = [lit_bool(a["pat"]) for a in e["arms"]]
+            if any(a["guard"] is not None for a in e["arms"]) or None in pats or pats[0] == "_":
+                raise TieBroken(f"{ctx['where']}: match on bool with patterns {[a['pat'] for a in e['arms']]}")
+            if pats[1] != "_" and pats[1] == pats[0]:
+                raise TieBroken(f"{ctx['where']}: match on bool: duplicate arm")
+            first = self.tr_expr(e["arms"][0]["body"], ctx, env)
+            second = self.tr_expr(e["arms"][1]["body"], ctx, env)
+            return self.mk_if(sv, first, second) if pats[0] is True else self.mk_if(sv, second, first)
         if sv.ty[0] != "opt" or len(e["arms"]) != 2:
             raise TieBroken(f"{ctx['where']}: match on {sv.ty}")
         some = none = None
